@@ -58,6 +58,11 @@ impl BlockEncoder {
             closabled_object,
         };
         block.block_partitioning();
+        if block.file.object.transfer_length == 0 {
+            // An empty object has no source block: do not let the FEC encoders build repair
+            // symbols for a block that does not exist, send the lone close-object packet
+            block.read_end = true;
+        }
         Ok(block)
     }
 
